@@ -321,6 +321,10 @@ def real_run(case, records, bad):
   baseline = set(threading.enumerate())
   t, sinks = g.build(chain, resolve_fn, num_threads=case['num_threads'])
   source, shared = make_source(case, records)
+  if (case.get('src') or {}).get('via_state'):
+    # The data source as a worker / a recovered iterator sees it: rebuilt from
+    # its recorded state (same elements, same error-skipping configuration).
+    source = source.from_state(source.state)
   it = t.make().iterate(source, ignore_error=case['ignore_error'])
   box = {}
 
@@ -652,7 +656,7 @@ def gen_scenario(rseed, sidx, tier):
     if kind == 'source' or target == 'source+apply':
       src_ignore = ignore or (variant % 2 == 1)
       case['src'] = {'bad': [], 'exc': exc, 'slicing': rng.random() < 0.5,
-                     'ignore': src_ignore,
+                     'ignore': src_ignore, 'via_state': rng.random() < 0.4,
                      'split': rng.randint(0, len(records)) if rng.random() < 0.35 else None}
       case['feed'] = 'raising_seq'
       units['src'] = len(records)
